@@ -402,8 +402,8 @@ def run_scenario(sc, do_validate=True):
             ins = [v.t for v in ctx.inputs.values() if isinstance(v, SymReal)]
             rng = [z3.And(v >= z3.RealVal("1/2"), v <= 8) for v in ins]
             apart = [z3.Or(a - b >= z3.RealVal("1/8"), b - a >= z3.RealVal("1/8")) for i, a in enumerate(ins) for b in ins[i + 1:]]
-            for hints in (rng + apart, rng):
-                rh, mh = eng.check_valid(path, z3.Not(bad), extra=hints)
+            for hints in ((rng + apart, rng) if len(ins) <= 10 else (rng,)):
+                rh, mh = eng.check_valid(path, z3.Not(bad), extra=hints, timeout_ms=4000)
                 if rh == "sat":
                     model = mh
                     break
